@@ -192,6 +192,14 @@ def gen(ctx):
                 ops.append(mk(r.choice(alphabet)))
         start = r.choice([None, [[r.choice(KEYS), val()]], [[k, val()] for k in KEYS]])
         cases.append(dict(kind=r.choice(['Array', 'RaggedArray']), start=start, mode=r.choice(['r+', 'r+', 'r']), ops=ops))
+    # a key re-assigned with a value Python calls EQUAL to the stored one but JSON does not (1 / True / 1.0,
+    # 0 / False / -0.0, a tuple for the same list): the new value is what must be stored
+    chains = [[['int', 1], ['bool', 1], ['float', 1.0], ['int', 1]], [['int', 0], ['bool', 0], ['float', -0.0], ['int', 0]],
+              [['float', 2.0], ['int', 2], ['npfloat', 'float64', 2.0]], [['list', [['int', 1], ['int', 2]]], ['tuple', [['int', 1], ['float', 2.0]]]]]
+    for k, chain in enumerate(chains):
+        for how in ('setitem', 'update'):
+            ops = [[how, KEYS[0], v] if how == 'setitem' else ['update', [[KEYS[0], v]]] for v in chain]
+            cases.append(dict(kind=('Array', 'RaggedArray')[k % 2], start=[[KEYS[1], ['int', 7]]], mode='r+', ops=ops))
     return cases
 
 
